@@ -3,6 +3,7 @@ package props
 import (
 	"gvc/internal/driver"
 	"gvc/internal/vc"
+	"strings"
 )
 
 // Table lists the claimed properties and the obligations that decide them.
@@ -190,6 +191,38 @@ func Table() map[string]*Property {
 	// the emitting functions whose contracts carry the domain their Add has checked
 	c09 = append(c09, "apply.gen.Generate", "curry.gen.genFuncFor", "uncurry.gen.genFuncFor", "flip.gen.genFuncFor", "toerror.gen.genFuncFor", "compose.gen.genError",
 		"equal.gen.field", "equal.gen.genStatement", "compare.gen.field", "compare.gen.genStatement", "hash.gen.field", "hash.gen.genStatement")
+	textLevel := func(r driver.ObResult) bool {
+		switch r.Kind {
+		case "G3", "G4", "typecheck", "hole-integrity", "header", "capture":
+			return true
+		}
+		return false
+	}
+	c01 := []string{"clone.gen.genFuncFor", "deepcopy.gen.genFunc", "deepcopy.gen.genField", "dup.gen.Generate", "pipeline.gen.Generate",
+		"fmap.gen.genChan", "join.gen.genChan", "join.gen.genChanVariant", "join.gen.genSliceOfChan",
+		"fmap.gen.genSlice", "fmap.gen.genString", "fmap.gen.genError", "join.gen.genSlice", "join.gen.genString", "join.gen.genError",
+		"equal.gen.genFunc", "equal.gen.genCurriedFunc", "compare.gen.genFunc", "compare.gen.genCurriedFunc", "hash.gen.genFunc",
+		"tuple.gen.genFuncFor", "traverse.gen.genSlice", "mem.gen.genFunc"}
+	for _, f := range c09 {
+		if !strings.HasSuffix(f, ".Add") {
+			c01 = append(c01, f)
+		}
+	}
+	add(&Property{
+		ID: "C01",
+		Groups: []Group{
+			{Layer: "D", Pkg: "derive", Funcs: []string{"derive.typesMap.isGenerated", "derive.typesMap.ToGenerate", "derive.typesMap.Done", "derive.typesMap.Generating", "derive.pkg.Done", "derive.pkg.Generate"}},
+			{Layer: "O", NoVC: true, Funcs: c01, Only: textLevel},
+		},
+		Assumptions: []string{
+			"PARTIAL. Decided: (1) the work list (Layer D): ToGenerate returns exactly the registered type lists that are not generated yet, in registration order; Done says none is left; pkg.Generate returns successfully only with every plugin's work list empty, so every helper requested through GetFuncName/SetFuncName was handed to its plugin's Generate (termination not shown); one name per type list and one type list per name is C11; (2) text level (Layer G+O): on every non-error path of every generator function under contract (31 of 33 plugins; not gostring, do) the emitted text parses, keeps its operand holes intact, type-checks under a prelude synthesised from the path condition with exactly the imports whose alias closures were called (go/types reports unused and missing imports), has the signature its callers assume (header) and binds no generator identifier under a user-chosen name (capture)",
+			"NOT decided: call discovery (derive/find.go: nested derive calls, calls in closures, package-level vars, _test files, the curried one-argument forms), loading (derive/load.go), qualified names of same-named imported packages (derive/qual.go), types that only become inferable after an earlier generation pass (the generatePackage loop is under the file-effect contracts of C07/C10 only), gostring and do",
+			"A-cfg, A-param: a schematic program with opaque types stands for every instantiation; arities enumerated up to 3",
+			"the open findings (emitted code that does not parse or type-check although goderive exits 0) are genuine violations of this property and are listed as known findings",
+		},
+		Trusted: oTrusted,
+		Note:    "work-list contracts plus the text-level obligations of every plugin",
+	})
 	add(&Property{
 		ID:     "C09",
 		Groups: []Group{{Layer: "O", NoVC: true, Funcs: c09, Only: genLevel}},
